@@ -22,6 +22,13 @@ PROP = {
         'Altrios.Proofs.C03.C03_fricSetCurMax_bounds',
         'Altrios.Proofs.C03.C03_fric_inv',
         'Altrios.Proofs.C03.C03_walk_exit',
+        'Altrios.Proofs.C03.C03_walk_old_diverges',
+        'Altrios.Proofs.C03.C03_walk_new_reports_stuck',
+        'Altrios.Proofs.C03.C03_walk_new_refines_old',
+        'Altrios.Proofs.C03.C03_walk_sound_check_keeps_exits',
+        'Altrios.Proofs.C03.C03_walk_exit_new',
+        'Altrios.Proofs.C03.C03_slWalk_exit',
+        'Altrios.Proofs.C03.C03_stuck_implies_cond',
         'Altrios.Proofs.C03.C03_power_bounds',
         'Altrios.Proofs.C03.C03_recalc_inv',
         'Altrios.Proofs.C03.C03_recalc_establishes_pre',
@@ -54,5 +61,11 @@ TEXT = {
              'target above limit, stop outside the path, any other panic) is still a VIOLATION. The real walk_timed_path (timed path from dispatch: authority arriving '
              'early, on time or late) is run as a black box and judged row by row from its saved history against the network\'s posted restrictions; a budgeted copy of its loop decides '
              'first whether the walk ends at all — this exposed a run that never returned (train at rest with target 0 short of the stopping window), repaired by fix: c76dec1: the walk '
-             'now ends with a descriptive error, and the harness checks on every such state that it is a fixed point of step() and that the real walk() reports it. '),
+             'now ends with a descriptive error, and the harness checks on every such state that it is a fixed point of step() and that the real walk() reports it. '
+             'The loop itself is modelled before and after that repair (walkLoopOld / walkLoop, generic in step(); the check is walkStuck, re-translated from the ensure! in the loop body '
+             'and proved equal, walkStuck_eq, compared bit for bit after every accepted step, op walk_stuck): from a state that a step leaves the same for the purposes of step and the loop condition the '
+             'old loop is still running after ANY number of steps (C03_walk_old_diverges) while the new one ends with the error after one (C03_walk_new_reports_stuck); the new loop exits exactly '
+             'where the old one does unless the check fired first, and a check that fires only on such fixed points changes no run that used to end (C03_walk_new_refines_old, '
+             'C03_walk_sound_check_keeps_exits); every exit is at rest inside the window or at/after the end (C03_walk_exit_new, C03_slWalk_exit) and the check never fires on an exit state '
+             '(C03_stuck_implies_cond); every run the harness completes step by step without a stuck pair is replayed by the real walk(), which must return Ok in the same final state. '),
 }
